@@ -84,6 +84,7 @@ type world struct {
 	// orphan[{series, shard}]: at some moment the engine of the shard held data of the series while the index did
 	// not list it under its measurement (value: the suffix of unindexedTag). Sticky, because a later write to the
 	// series puts it back into the index without making the stranded data reachable for the deletes in between.
+	nclients int
 	orphan map[[2]int]string
 	// postCompaction: the queries run after a forced index compaction (other signature stem for listed dead names)
 	postCompaction bool
@@ -536,6 +537,10 @@ func (w *world) unindexedTag(s, shard int) string {
 	case twin:
 		return ":recreated-series-dropped-from-index"
 	}
+	// NOTE: the same state (data of a series the shard index does not list) was also seen once with a single client on
+	// the unchanged tree (findings/C17-O1-...), i.e. not only through the race C17-F1 describes; it could not be triaged
+	// within the session, so the signature stays one and the same (a seeded change with this symptom, mut6-C17, is
+	// therefore reported as the known finding).
 	return ":series-not-in-index"
 }
 
@@ -685,6 +690,7 @@ func exec(r *hx.Run, prog []json.RawMessage) {
 		}
 	}
 	sort.Ints(order)
+	w.nclients = len(order)
 	// liveness clause of C17: a write that does not overlap any delete in flight never parks on a guard
 	simrt.ParkHook = func(name string, site int32, kind string) {
 		if kind != "cond" || !strings.HasPrefix(name, "client") || !strings.Contains(hx.SiteName(site), "tsdb/guard.go") {
